@@ -27,10 +27,10 @@ run)
   if [ -n "$(git -C /repo status --porcelain --untracked-files=no)" ]; then echo "refusing: /repo has uncommitted changes"; exit 2; fi
   trap 'git -C /repo checkout -- . 2>/dev/null' EXIT
   git -C /repo apply "$S/patch.diff" || { echo "patch does not apply to /repo"; exit 2; }
-  : > "$S/checks.log"
+  LOGF="$S/checks${VERIF_PROFILE:+-$VERIF_PROFILE}.log"; : > "$LOGF"
   for p in "$@"; do
     res=$(VERIF_EVIDENCE_DIR=/tmp/seeded-evidence ./check "$p" quick 2>&1); code=$?
-    echo "$p exit=$code $(echo "$res" | grep -E '^violation:' | head -1 | cut -c1-300)" | tee -a "$S/checks.log"
+    echo "$p exit=$code $(echo "$res" | grep -E '^violation:' | head -1 | cut -c1-300)" | tee -a "$LOGF"
   done
   git -C /repo checkout -- .
   ;;
